@@ -47,7 +47,7 @@ def lines_gen(r, n):
             else:
                 # a complete round trip: sentinel in front of a slot, removed again
                 ops.append("a%d" % r.randrange(0, ns))
-                ops.append("d%d" % sum(1 for o in ops if o[0] == "a") .__sub__(1))
+                ops.append("d%d" % (len([o for o in ops if o[0] == "a"]) - 1))
         out.append("lines %d %s" % (ns, " ".join(ops)))
     # unstructured sequences too (correspondence only)
     for _ in range(n // 2):
@@ -79,8 +79,14 @@ def lines_holds(l, i):
     # structured: every sentinel is removed right after it was added
     na = [o for o in ops if o[0] == "a"]
     nd = [o for o in ops if o[0] == "d"]
-    if len(na) != len(nd) or any(ops[k][0] == "a" and (k + 1 >= len(ops) or ops[k + 1][0] != "d") for k in range(len(ops))):
+    if len(na) != len(nd):
         return None, ""
+    cnt = 0
+    for k, o in enumerate(ops):
+        if o[0] == "a":
+            if k + 1 >= len(ops) or ops[k + 1] != "d%d" % cnt:
+                return None, ""
+            cnt += 1
     exp = expected_lines(int(w[1]), ops)
     if exp is None:
         return None, ""
